@@ -152,7 +152,8 @@ def explore(run):
         witnesses(run, sc)
         for i in range(700 if thorough else 28):
             # a quarter of the graphs define one or two nodes twice (overlapping exports): row labels and ids then differ
-            g, files = W.gen_closed(rng, hostile=rng.random() < 0.4, features={"repeat_nodes": rng.random() < 0.25})
+            # (the first graphs always have a namespace URI with XML-special characters)
+            g, files = W.gen_closed(rng, hostile=rng.random() < 0.4, features={"repeat_nodes": rng.random() < 0.25, "hostile_uri": i < 3})
             twice = {k_[0] for k_ in g.get("repeat", {})}
             try:
                 G, _ = W.build_graph(sc, "g%d" % i, files)
